@@ -6,7 +6,8 @@
    [codec_rt]/[codec_nz] on NUL-free BMP strings without surrogates.
    pol is uefi.Attributes.ErasePolarity; d is the nesting fuel (any value). *)
 From Fiano Require Import Base.Bytes Gen.Consts Model.Nvar Proofs.NvarProofs Proofs.NvarCompactProofs
-     Proofs.NvarReparseProofs Proofs.NvarCheckers Proofs.NvarCodecProofs Proofs.NvarInvalidateProofs.
+     Proofs.NvarReparseProofs Proofs.NvarCheckers Proofs.NvarCodecProofs Proofs.NvarInvalidateProofs
+     Proofs.NvarSequenceProofs.
 Open Scope Z_scope.
 
 Definition codec_rt (dec16 enc16 : bytes -> bytes) : Prop :=
@@ -85,6 +86,60 @@ Theorem C10_compact_idempotent : forall dec16 enc16, codec_rt dec16 enc16 -> cod
     s_buf (compacted enc16 pol st2) = s_buf (compacted enc16 pol s).
 Proof. exact compact_idempotent. Qed.
 Print Assumptions C10_compact_idempotent.
+
+(* ---- sequences of visitors on ONE in-memory tree (no re-parse in between) ---- *)
+
+(* the tree compaction returns (entries with their new offsets, table, buffer) is
+   a fixed point of compaction, as a tree *)
+Theorem C10_compacted_idem : forall enc16 pol t,
+  chains_ok (s_entries t) ->
+  compacted enc16 pol (compacted enc16 pol t) = compacted enc16 pol t.
+Proof. exact compacted_idem. Qed.
+Print Assumptions C10_compacted_idem.
+
+(* any command line over nvram-compact / invalidate_nvar n / Assemble runs to the
+   end on a tree satisfying [seq_inv] (chains_ok, compact_fits, Assemble is the
+   identity on it), keeps [seq_inv] and Length, and its live set is the original
+   one minus the invalidated names: invalidate marks, compact sweeps *)
+Theorem C10_sequence : forall enc16 pol d ops t, seq_inv enc16 pol t ->
+  exists t', run_ops enc16 pol (S d) ops t = Ok t' /\ seq_inv enc16 pol t' /\
+             s_len t' = s_len t /\ live t' = live_after ops (live t).
+Proof. exact run_ops_spec. Qed.
+Print Assumptions C10_sequence.
+
+(* ... and after a final compaction the tree holds exactly that live set, one Full
+   entry per variable with its own GUID and name, in order; saving or compacting
+   it again changes nothing *)
+Theorem C10_sequence_compacted : forall enc16 pol d ops t, seq_inv enc16 pol t ->
+  exists t0 t', run_ops enc16 pol (S d) ops t = Ok t0 /\
+    run_ops enc16 pol (S d) (ops ++ [OpCompact]) t = Ok t' /\
+    t' = compacted enc16 pol t0 /\ seq_inv enc16 pol t0 /\
+    map triple (s_entries t') = live_after ops (live t) /\ Forall full_tail (s_entries t') /\
+    zlen (s_buf t') = s_len t /\
+    asm_store enc16 pol (S d) t' = Ok t' /\
+    compact_store enc16 pol (S d) t' = Ok t'.
+Proof. exact run_ops_compacted. Qed.
+Print Assumptions C10_sequence_compacted.
+
+(* the parse of a well-formed store is a valid starting tree, and the bytes saved
+   after [ops; nvram-compact] re-parse to the live variables not invalidated *)
+Theorem C10_sequence_start : forall dec16 enc16, codec_rt dec16 enc16 ->
+  forall pol s, wf_store pol s = true ->
+  chains_ok (s_entries (interp dec16 pol s)) -> compact_fits enc16 pol (interp dec16 pol s) ->
+  seq_inv enc16 pol (interp dec16 pol s).
+Proof. exact seq_inv_parsed. Qed.
+Print Assumptions C10_sequence_start.
+
+Theorem C10_sequence_reparse : forall dec16 enc16, codec_rt dec16 enc16 -> codec_nz dec16 ->
+  forall pol d ops t, seq_inv enc16 pol t ->
+  exists t0 t', run_ops enc16 pol (S d) ops t = Ok t0 /\
+    run_ops enc16 pol (S d) (ops ++ [OpCompact; OpAssemble]) t = Ok t' /\
+    zlen (s_buf t') = s_len t /\
+    (reparse_ok dec16 enc16 pol t0 ->
+     exists st2, parse_store dec16 pol (s_buf t') = Ok st2 /\
+                 live st2 = live_after ops (live t) /\ Forall full_tail (s_entries st2)).
+Proof. exact run_ops_reparse. Qed.
+Print Assumptions C10_sequence_reparse.
 
 (* the side conditions are decidable on a concrete parsed store *)
 Theorem C10_side_conditions_decidable : forall dec16 enc16 pol s,
@@ -331,3 +386,21 @@ Proof.
   split; [apply compact_fitsb_sound; vm_compute; reflexivity|].
   apply reparse_okb_sound; vm_compute; reflexivity.
 Qed.
+
+(* ---- a command line on the example: compact, invalidate "Setup", compact, compact ---- *)
+Example ex_seq_inv : seq_inv enc16_impl 255 ex_parsed.
+Proof.
+  apply (seq_inv_parsed dec16_impl enc16_impl codec_rt_impl 255 ex_store).
+  - vm_compute; reflexivity.
+  - apply chains_okb_sound; vm_compute; reflexivity.
+  - apply compact_fitsb_sound; vm_compute; reflexivity.
+Qed.
+
+Example ex_sequence :
+  (do st <- run_ops enc16_impl 255 3 [OpCompact; OpInvalidate [83;101;116;117;112]; OpCompact; OpCompact; OpAssemble]
+                    ex_parsed;
+   do st2 <- parse_store dec16_impl 255 (s_buf st);
+   Ok (live st, live st2, map v_off (s_entries st))) =
+  Ok (live_after [OpInvalidate [83;101;116;117;112]] (live ex_parsed),
+      live_after [OpInvalidate [83;101;116;117;112]] (live ex_parsed), [0; 37; 78]).
+Proof. vm_compute. reflexivity. Qed.
